@@ -446,6 +446,9 @@ func YieldPoint() {
 // replayed).
 func PollInterval() time.Duration { return 100*time.Millisecond + time.Nanosecond }
 
+// SortStrings is used by the overlay to make the KEYS scan order canonical.
+func SortStrings(s []string) { sort.Strings(s) }
+
 // Re-exports so that a file whose only use of "sync" was the mutex types still
 // compiles when the import is replaced wholesale.
 type WaitGroup = sync.WaitGroup
